@@ -77,75 +77,28 @@ func (a *assumeEval) cond(v ssa.Value) (bool, bool) {
 	return false, false
 }
 
-// evalEnumPredicate evaluates a one-parameter boolean function of an integer constant.
+// evalEnumPredicate evaluates a one-parameter boolean function of an integer constant (by the
+// decision table of the function over its parameter: comparisons, switches, table columns).
 func evalEnumPredicate(g *ssa.Function, k int64) (bool, bool) {
-	if len(g.Params) != 1 || g.Signature.Results().Len() != 1 {
+	if len(g.Params) != 1 || g.Signature.Results().Len() != 1 || g.Blocks == nil || k < 0 || k > 255 {
 		return false, false
 	}
-	prm := g.Params[0]
-	var val func(v ssa.Value, from *ssa.BasicBlock, depth int) (bool, bool)
-	val = func(v ssa.Value, from *ssa.BasicBlock, depth int) (bool, bool) {
-		if depth > 40 {
-			return false, false
-		}
-		if b, ok := constBool(v); ok {
-			return b, true
-		}
-		switch x := v.(type) {
-		case *ssa.UnOp:
-			if x.Op == token.NOT {
-				t, ok := val(x.X, from, depth+1)
-				return !t, ok
-			}
-		case *ssa.BinOp:
-			if x.Op == token.EQL || x.Op == token.NEQ {
-				l, r := x.X, x.Y
-				if _, isK := l.(*ssa.Const); isK {
-					l, r = r, l
-				}
-				if l == ssa.Value(prm) {
-					if kv, ok := constInt(r); ok {
-						return (kv == k) == (x.Op == token.EQL), true
-					}
-				}
-			}
-		}
-		return false, false
-	}
-	b := g.Blocks[0]
-	var prev *ssa.BasicBlock
-	for steps := 0; steps < 200; steps++ {
-		switch last := b.Instrs[len(b.Instrs)-1].(type) {
-		case *ssa.Return:
-			rv := last.Results[0]
-			if ph, ok := rv.(*ssa.Phi); ok && ph.Block() == b {
-				for i, pr := range b.Preds {
-					if pr == prev {
-						return val(ph.Edges[i], pr, 0)
-					}
-				}
-				return false, false
-			}
-			return val(rv, prev, 0)
-		case *ssa.If:
-			t, ok := val(last.Cond, prev, 0)
-			if !ok {
-				return false, false
-			}
-			prev = b
-			if t {
-				b = b.Succs[0]
-			} else {
-				b = b.Succs[1]
-			}
-		case *ssa.Jump:
-			prev = b
-			b = b.Succs[0]
+	lv := decisionTable(g.Blocks[0], dtConfig{Var: g.Params[0], Dom: relang.NewSet(int32(k), int32(k)), Leaf: func(b *ssa.BasicBlock) (string, bool) { return "", false }})
+	t, f := false, false
+	for _, l := range lv {
+		switch l.Effect {
+		case "return:true":
+			t = true
+		case "return:false":
+			f = true
 		default:
 			return false, false
 		}
 	}
-	return false, false
+	if t == f {
+		return false, false
+	}
+	return t, true
 }
 
 // readsDynamicStart: v is the value of the dynamicStart field (of any context/attr value).
